@@ -678,7 +678,7 @@ func (o *baseObject) _defineOwnProperty(name unistring.String, existingValue Val
 				goto Reject
 			}
 		}
-		if existing.accessor && descr.Value != nil || !existing.accessor && (getterObj != nil || setterObj != nil) {
+		if existing.accessor && descr.IsData() || !existing.accessor && descr.IsAccessor() {
 			if !existing.configurable {
 				goto Reject
 			}
@@ -723,7 +723,20 @@ func (o *baseObject) _defineOwnProperty(name unistring.String, existingValue Val
 	}
 
 	if descr.Value != nil || descr.Writable != FLAG_NOT_SET {
+		if existing.accessor {
+			// accessor -> data: the accessor functions go away and [[Writable]] defaults to false
+			existing.getterFunc = nil
+			existing.setterFunc = nil
+			if descr.Writable == FLAG_NOT_SET {
+				existing.writable = false
+			}
+		}
 		existing.accessor = false
+	}
+
+	if (descr.Getter != nil || descr.Setter != nil) && !existing.accessor {
+		// data -> accessor: an accessor has no [[Writable]]
+		existing.writable = false
 	}
 
 	if descr.Getter != nil {
